@@ -13,7 +13,7 @@
 (* PlannerScalar / PlannerSse / PlannerAvx / CallProtocol / Exec and only  *)
 (* ever produce MODEL-DRIFT.                                               *)
 (***************************************************************************)
-EXTENDS Recipe, Field, TLC
+EXTENDS PlannerAvx, Field, TLC
 
 CONSTANT Prop      \* "C01" .. "C15", or "ALL"
 
@@ -169,7 +169,9 @@ PlanBegin(pid, n, dir) ==
     /\ pid \in DOMAIN planners /\ planners[pid].alive
     /\ planning = << >>
     /\ n >= 0 /\ dir \in Dirs
-    /\ planning' = <<[pid |-> pid, n |-> n, dir |-> dir]>>
+    /\ planning' = <<[pid |-> pid, n |-> n, dir |-> dir,
+                       cache0 |-> {k[1] : k \in {c \in cache[pid] : c[2] = dir}},   \* lengths cached for this direction at entry
+                       builds |-> << >>]>>                                             \* hook-reported build steps so far
     /\ UNCHANGED <<cfg, planners, cache, insts, pending, refs, drift>>
 
 \* hook-reported internal steps of a plan_fft call: faithful layer, drift only
@@ -189,7 +191,23 @@ ScratchBoundOk(len, scr) == \A e \in 1..3 : scr[e] <= 12 * len + 64          \* 
 Build(kind, len, dir, scr) ==
     /\ planning # << >>
     /\ drift' = drift + DriftIf(~(dir = planning[1].dir /\ ScratchBoundOk(len, scr)), <<"build", kind, len, dir, scr>>)
-    /\ UNCHANGED <<cfg, planners, cache, insts, planning, pending, refs>>
+    /\ planning' = <<[planning[1] EXCEPT !.builds = Append(@, <<kind, len>>)]>>
+    /\ UNCHANGED <<cfg, planners, cache, insts, pending, refs>>
+
+\* Faithful layer for the AVX planner's cache-dependent planning (replan_with_cache): given the cache contents at
+\* entry, the outermost plan's base and radix chain are predicted and compared with the last build steps reported.
+AvxChainExpected(elem, n, cache0) ==
+    LET plan == AvxPlanFft(elem, HasBit(cfg.mask, BitAvx2), n, cache0) IN
+    IF IsPanicPlan(plan) THEN << >>
+    ELSE <<plan.base.len>> \o ChainLens(plan.radixes, 1, plan.base.len)
+BuildChainDrift(p) ==
+    LET pl == planners[p.pid] IN
+    IF pl.backend = "avx" /\ pl.elem \in SimdElems /\ Len(p.builds) > 0
+    THEN LET exp == AvxChainExpected(pl.elem, p.n, p.cache0)
+             k   == Len(exp)
+             obs == IF Len(p.builds) >= k THEN [i \in 1..k |-> p.builds[Len(p.builds) - k + i][2]] ELSE << >>
+         IN DriftIf(exp # obs, <<"avx-chain", pl.elem, p.n, p.dir, exp, obs>>)
+    ELSE 0
 
 \* C04 (+ C05 scratch clause): what plan_fft must return
 PlanEnd(pid, iid, outcome, len, rdir, scr) ==
@@ -203,7 +221,15 @@ PlanEnd(pid, iid, outcome, len, rdir, scr) ==
                                   n |-> planning[1].n, dir |-> planning[1].dir,
                                   len |-> len, rdir |-> rdir, scr |-> scr])
     /\ planning' = << >>
-    /\ UNCHANGED <<cfg, planners, cache, pending, refs, drift>>
+    /\ drift' = drift + BuildChainDrift(planning[1])
+    /\ UNCHANGED <<cfg, planners, cache, pending, refs>>
+
+\* what today's planner heuristics design for n (faithful layer; << >> = no model for this planner kind)
+FaithfulPlan(kind, elem, n) ==
+    CASE kind = "scalar" -> ScalarPlan(n)
+      [] kind = "sse" -> SsePlan(n)
+      [] kind = "avx" /\ elem \in SimdElems -> AvxPlan(elem, HasBit(cfg.mask, BitAvx2), n)
+      [] OTHER -> << >>
 
 \* plan report without construction (hook H3): C04 "never panics", C05 "no naive node"; shape of the tree is faithful layer
 PlanReport(pid, n, dir, outcome, tree) ==
@@ -212,6 +238,8 @@ PlanReport(pid, n, dir, outcome, tree) ==
     /\ outcome = "ok"
     /\ On("C05") /\ Known(tree) /\ Shaped(tree) => NoNaiveAbove32(tree)
     /\ drift' = drift + DriftIf(~(Known(tree) /\ WellFormed(tree) /\ TreeLen(tree) = n), <<"plan-report", n, dir>>)
+                     + (LET f == FaithfulPlan(planners[pid].kind, planners[pid].elem, n) IN
+                        DriftIf(f # << >> /\ f # tree, <<"plan-differs-from-model", planners[pid].kind, planners[pid].elem, n>>))
     /\ UNCHANGED <<cfg, planners, cache, insts, planning, pending, refs>>
 
 \* a transform assembled by the client from the public constructors (C12); never panics within preconditions
